@@ -136,7 +136,7 @@ add("C10", "write failures fail-stop",
     [H("vfH_fault_write", ["fault-write-end"], 3000, {"tier": 1}), H("vfH_conc_fault", ["conc-fault-end"], 900, {"preempt": 3, "tier": 1})],
     ["2-step write programs (6 programs incl. prepared, implicit close, WriteControl; payloads 1 and 37 bytes, buffer 4) x every index k of a write-side transport operation (SetWriteDeadline, Write, each Write of a two-buffer frame) x {error, timeout, short write + error}; then 2 later calls out of the 7 write APIs and Close of the open writer",
      "invalid requests: message type fully symbolic outside {1,2,8,9,10} through NextWriter / WriteMessage / WriteControl / NewPreparedMessage; control payload of 126 bytes through every API; control message larger than the buffer; before or after a valid message; with an instrumented pool",
-     "fault while a second caller waits (conc_fault): a data writer and a WriteControl caller run as two goroutines, write-side operation 0..1 (thorough 0..3) fails in one of 3 ways; on every schedule within the preemption bound (quick 2, thorough 3) nothing reaches the transport after the failed operation and later calls fail",
+     "fault while a second caller waits (conc_fault): a data writer and a WriteControl caller run as two goroutines, write-side operation 0..1 (thorough: 0..5, data message of 3 or 45 bytes through WriteMessage or NextWriter + pieces) fails in one of 3 ways; on every schedule within the preemption bound (quick 2, thorough 3) nothing reaches the transport after the failed operation and later calls fail",
      "deadlines: 3 steps of SetWriteDeadline / WriteControl with deadlines from {none, expired, three distinct live ones} / data messages; every transport Write is preceded by SetWriteDeadline with the deadline in force"],
     ["transports that transmit more than they report", "programs longer than 2-3 steps"],
     ASSUME_COMMON, STUB_COMMON + [STUB_FLATE],
@@ -166,7 +166,7 @@ add("C11", "concurrency contract",
     [H("vfH_conc_frames", ["conc-frames-end"], 1800, {"preempt": 2, "tier": 1}), H("vfH_close_sched", ["close-sched-end"], 900, {"preempt": 3}), H("vfH_conc_shared", ["conc-shared-end"], 900, {"preempt": 3}), H("vfH_conc_fault", ["conc-fault-end"], 900, {"preempt": 3, "tier": 1})],
     ["goroutines: 1 writer (a 43-byte message in 3 frames, on a server one frame written as two buffers), 1 reader (ping answered by the default handler, then a data message), 1 WriteControl caller (zero deadline / a deadline that may expire while the writer holds the connection / two calls), or Close(); 2 connections sharing one PreparedMessage and one buffer pool",
      "schedules: scheduling points at every transport operation (which may block arbitrarily long), goroutine start/end and every blocking lock or channel operation; context bound: quick 1 preemption (conc_frames) / 2 (others), thorough 2-3; timers may fire at any scheduling point after they were armed",
-     "transport fault under concurrency (conc_fault): a data writer and a WriteControl caller (zero / far deadline) run concurrently while write-side operation 0..1 (thorough 0..3) fails in one of 3 ways: nothing reaches the transport afterwards on any schedule, one of the calls reports it, later calls fail",
+     "transport fault under concurrency (conc_fault): a data writer and a WriteControl caller (zero / far deadline) run concurrently while write-side operation 0..1 (thorough: 0..5, data message of 3 or 45 bytes through WriteMessage or NextWriter + pieces) fails in one of 3 ways: nothing reaches the transport afterwards on any schedule, one of the calls reports it, later calls fail",
      "connection held for ever (wc_blocked): the write lock is taken and never released, WriteControl (ping / pong / close) with a deadline 1..3 ms ahead must return a timeout error (a wait without a timer shows up as a deadlock), its wait ends by the deadline on the model clock, nothing is written, the connection works once the lock is released",
      "data races: vector-clock happens-before detector over every heap cell access of the interpreted code on every explored schedule; a reported race is replayed natively under go test -race"],
     ["'returns by that deadline' as a real-time bound: time is abstracted (the timeout path is taken whenever the timer wins, writes nothing and does not poison); what is decided is that the wait WriteControl gave up on was armed to end no later than its deadline on the model clock (vfTimerBy), and that with the connection held for ever it does come back with a timeout (wc_blocked); with a holder that lets go later than the deadline a WriteControl that waits without a timer is still not caught", "more than 3 library goroutines + main, more preemptions than the bound", "races inside the real compress/flate pools (modelled)"],
